@@ -276,6 +276,14 @@ class StmtMixin:
 
     def ex_Assign(self, st):
         v = self.ev(st.value)
+        if isinstance(v, LazySeq) and v.conds and not self.binders and not self.spec_mode \
+                and getattr(v, "kind", "list") == "list" and self._calls_contract_fn(list(v.conds) + [v.elt]):
+            # python builds a filtered list here, once: later uses (also inside quantified invariants) must all
+            # denote this one list, not a fresh materialisation each
+            try:
+                v = self.materialize(v)
+            except Unsupported:
+                pass
         for t in st.targets:
             lt = getattr(self.frames[-1], "local_types", None)
             if lt and isinstance(t, ast.Name) and t.id in lt and isinstance(v, SV) and v.term is None:
@@ -283,6 +291,21 @@ class StmtMixin:
                 self.assign_target(t, v, st.lineno, lt[t.id])
                 continue
             self.assign_target(t, v, st.lineno)
+
+    def _calls_contract_fn(self, nodes) -> bool:
+        """does one of these expressions call a repository function that is used through its contract?  (each
+        evaluation of such a call yields a fresh result constrained only by the postcondition)"""
+        for n in nodes:
+            for c in ast.walk(n):
+                if isinstance(c, ast.Call):
+                    try:
+                        fq = self.static_callee(c)
+                    except Exception:
+                        fq = None
+                    if fq and fq in self.specs.contracts and not self.specs.contracts[fq].inline \
+                            and fq not in self.specs.inline:
+                        return True
+        return False
 
     def ex_AnnAssign(self, st):
         ann = self.w.resolve_ann(st.annotation, self.frames[-1].module)
